@@ -1067,6 +1067,12 @@ class Interp:
 
     def e_BoolOp(self, node, frame):
         is_and = isinstance(node.op, ast.And)
+        if is_and and frame.assumed and id(node) in _assumed_positions(frame.info):
+            # a conjunction whose truth is about to be assumed: assume the conjuncts one after the other
+            # (each is then a plain fact of the context for the next ones, not a temporary hypothesis)
+            for v in node.values:
+                self.st.assume(self.truth(self.eval(v, frame)))
+            return True
         vals = node.values
         return self._boolop(is_and, vals, 0, frame)
 
@@ -1906,6 +1912,7 @@ def _assumed_positions(info):
             if isinstance(e, ast.Call):
                 r.add(id(e))
             elif isinstance(e, ast.BoolOp) and isinstance(e.op, ast.And):
+                r.add(id(e))
                 for v in e.values:
                     collect(v)
 
